@@ -134,6 +134,9 @@ def run_sim(binary, argv, plan=None, cwd=None, stdin=None, env=None, timeout=120
     if env:
         e.update(env)
     e["VERIF_CPU_LIMIT"] = str(cpu)
+    # the CPU limit is the termination bound (and the scheduler reports a deadlock itself); the wall clock limit only catches a process
+    # blocked in a real system call, and must not fire because the machine is busy with other checks
+    timeout = max(timeout, 12 * cpu, 240)
     tmpd = scratch or cwd or SCRATCH_ROOT
     tracep = None
     if plan is not None:
